@@ -19,6 +19,10 @@ import (
 )
 
 type c16WireIn struct {
+	// Via "rt": through the real newWireCaptureTransport / TracingRoundTripper (ctx flavours
+	// live | fail | bare; "c:k" reads the response body to its end, "x:k" also completes the
+	// trace through the middleware's goroutine); otherwise wireTracer.Complete is called directly
+	Via    string   `json:"via,omitempty"`
 	Ctx    []string `json:"ctx"`    // per call: live | cancelled | expired | timeout | bare
 	Tracer bool     `json:"tracer"` // a real *tracer.Tracer behind the wireTracer
 	Steps  []string `json:"steps"`
@@ -35,7 +39,12 @@ func init() {
 		in := gen.Into[c16WireIn](raw)
 		var out c16WireOut
 		for attempt := 0; attempt < 3; attempt++ {
-			v := rc.VerifC16NewWire(in.Ctx, in.Tracer)
+			var v *rc.VerifC16Wire
+			if in.Via == "rt" {
+				v = rc.VerifC16NewWireRT(in.Ctx, in.Tracer)
+			} else {
+				v = rc.VerifC16NewWire(in.Ctx, in.Tracer)
+			}
 			out = c16WireOut{Obs: make([]string, 0, len(in.Steps))}
 			for _, st := range in.Steps {
 				out.Obs = append(out.Obs, v.Do(st))
@@ -107,6 +116,55 @@ func c16WireAnnotate(seq []string, peekAt int, graceEnd bool) []string {
 		} else {
 			out = append(out, "c:"+k+":"+fmt.Sprint(290+len(out)), "j:"+k)
 			completed[k] = true
+		}
+	}
+	return out
+}
+
+// c16WireAnnotateRT: the same for the round-tripper mode, where both "c:k" (response read to
+// its end) and "x:k" (context cancelled) complete the trace of a call, and a failed round trip
+// has completed it before the script starts. Every pending wait is completed at the end.
+func c16WireAnnotateRT(seq []string, ctx []string, peekAt int) []string {
+	pending := map[string]bool{}
+	completed := map[string]bool{}
+	for k, fl := range ctx {
+		if fl == "fail" {
+			completed[fmt.Sprint(k)] = true
+		}
+	}
+	bare := func(k string) bool {
+		var i int
+		fmt.Sscan(k, &i)
+		return i < len(ctx) && ctx[i] == "bare"
+	}
+	var out []string
+	for i, st := range seq {
+		f := strings.Split(st, ":")
+		out = append(out, st)
+		switch f[0] {
+		case "w":
+			if !completed[f[1]] && !bare(f[1]) {
+				pending[f[1]] = true
+			}
+		case "c", "x":
+			completed[f[1]] = true
+			if pending[f[1]] {
+				out = append(out, "j:"+f[1])
+				delete(pending, f[1])
+			}
+		}
+		if i == peekAt {
+			for _, k := range []string{"0", "1", "2"} {
+				if pending[k] {
+					out = append(out, "p:"+k)
+					break
+				}
+			}
+		}
+	}
+	for _, k := range []string{"0", "1", "2"} {
+		if pending[k] {
+			out = append(out, "c:"+k, "j:"+k)
 		}
 	}
 	return out
@@ -219,6 +277,41 @@ func c16WireGen(c *gen.Ctx) {
 		}
 		emit(ctx, r.Bool(), seq, r.Intn(len(seq)), r.Chance(1, 10))
 	}
+	// ---- the same hand-off through the real client-side glue (newWireCaptureTransport ->
+	// TracingRoundTripper -> wireTracer): completion by reading the response to its end, or by
+	// the middleware's goroutine when the call's context is cancelled
+	nrt := 0
+	emitRT := func(ctx []string, tr bool, seq []string, peekAt int) {
+		steps := c16WireAnnotateRT(seq, ctx, peekAt)
+		key := fmt.Sprint("rt", ctx, steps)
+		if seen[key] {
+			return
+		}
+		seen[key] = true
+		nrt++
+		ins = append(ins, c16WireIn{Via: "rt", Ctx: ctx, Tracer: tr, Steps: steps})
+	}
+	for fi, fl := range []string{"live", "fail", "bare"} {
+		c16Arrangements([]string{"w:0", "x:0", "c:0"}, func(seq []string) {
+			emitRT([]string{fl}, (nrt+fi)%2 == 0, seq, -1)
+			emitRT([]string{fl}, (nrt+fi)%2 == 0, seq, r.Intn(len(seq)))
+		})
+	}
+	nRandRT := 60
+	if c.Thorough() {
+		nRandRT = 1200
+	}
+	for i := 0; i < nRandRT; i++ {
+		perm := append([]string{}, two...)
+		for k := len(perm) - 1; k > 0; k-- {
+			j := r.Intn(k + 1)
+			perm[k], perm[j] = perm[j], perm[k]
+		}
+		seq := perm[:r.Range(3, len(perm))]
+		ctx := []string{gen.Pick(r, []string{"live", "live", "live", "fail", "bare"}), gen.Pick(r, []string{"live", "live", "fail"})}
+		emitRT(ctx, r.Bool(), seq, r.Intn(len(seq)))
+	}
+	c.E.Add("wire:scripts-through-the-real-round-tripper", nrt)
 	c.E.Add("wire:scripts", len(ins))
 	c.DoParallel("wire", ins, 16)
 }
@@ -277,14 +370,19 @@ func c16FinalGen(c *gen.Ctx) {
 	}
 	// the operation is ended early — by the request side or by the client going away — before
 	// the response starts, after it started, with and without trailers set afterwards
-	for _, waiter := range []string{"none", "late"} {
+	// (finding F28, repaired in cdc69f7: the trailers set afterwards must not reach the trace)
+	for _, waiter := range []string{"none", "late", "blocked", "gated"} {
+		gate := waiter == "gated"
+		if gate {
+			waiter = "blocked"
+		}
 		for _, end := range []string{"readErr", "closeReq", "cancel"} {
-			emit([]act{{K: end}, {K: "declare", Names: []string{"X-T"}}, {K: "w", Ok: true}, {K: "set", Key: "X-T", Val: "1"}}, waiter, false)
-			emit([]act{{K: "set", Key: "X-Plain", Val: "p"}, {K: "wh", Status: 200}, {K: end}, {K: "w", Ok: true}}, waiter, false)
-			emit([]act{{K: "declare", Names: []string{"X-T"}}, {K: "wh", Status: 200}, {K: end}}, waiter, false)
-			emit([]act{{K: "readEof"}, {K: "w", Ok: true}, {K: end}, {K: "set", Key: "X-Plain", Val: "late"}}, waiter, false)
-			emit([]act{{K: "declare", Names: []string{"X-T"}}, {K: "w", Ok: true}, {K: end}, {K: "set", Key: "X-T", Val: "1"}}, waiter, false)
-			emit([]act{{K: "w", Ok: true}, {K: end}, {K: "set", Key: "Trailer:X-P", Val: "1"}}, waiter, false)
+			emit([]act{{K: end}, {K: "declare", Names: []string{"X-T"}}, {K: "w", Ok: true}, {K: "set", Key: "X-T", Val: "1"}}, waiter, gate)
+			emit([]act{{K: "set", Key: "X-Plain", Val: "p"}, {K: "wh", Status: 200}, {K: end}, {K: "w", Ok: true}}, waiter, gate)
+			emit([]act{{K: "declare", Names: []string{"X-T"}}, {K: "wh", Status: 200}, {K: end}}, waiter, gate)
+			emit([]act{{K: "readEof"}, {K: "w", Ok: true}, {K: end}, {K: "set", Key: "X-Plain", Val: "late"}}, waiter, gate)
+			emit([]act{{K: "declare", Names: []string{"X-T"}}, {K: "w", Ok: true}, {K: end}, {K: "set", Key: "X-T", Val: "1"}}, waiter, gate)
+			emit([]act{{K: "w", Ok: true}, {K: end}, {K: "set", Key: "Trailer:X-P", Val: "1"}}, waiter, gate)
 		}
 	}
 	// random handler scripts
@@ -329,14 +427,6 @@ func c16FinalGen(c *gen.Ctx) {
 			}
 		}
 		waiter := gen.Pick(r, []string{"none", "blocked", "blocked", "late"})
-		for _, a := range acts {
-			// an operation that is ended early is written to afterwards (finding F28): a consumer
-			// that is already looking at it would race with that write, so such scripts are
-			// observed by the collector's copy and by a waiter that comes later
-			if (a.K == "readErr" || a.K == "closeReq" || a.K == "cancel") && waiter == "blocked" {
-				waiter = "late"
-			}
-		}
 		emit(acts, waiter, waiter == "blocked" && r.Bool())
 	}
 	c.E.Add("final:scripts", len(ins))
